@@ -65,6 +65,8 @@ type DBModel struct {
 	Mode     int        // ref.ModeRollback or ref.ModeWAL as stamped in the header
 	Wal      WalIndex
 	nextSalt uint32
+
+	pendingMode int // set while a journal_mode switch transaction runs
 }
 
 // NewDBModel returns the model of a database that does not exist yet.
@@ -290,6 +292,11 @@ type TxResult struct {
 	Segments   int        // journal segments written
 	Image      *ref.Image // the image SQLite sees afterwards (the model)
 	Pages      int        // distinct pages modified
+
+	// WAL mode
+	Frames      int  // frames written
+	Restarted   bool // the log was restarted (new salts) by this transaction
+	WroteHeader bool // a log header was written
 }
 
 func (c *Conn) journalName() string { return c.DB.Name + "-journal" }
@@ -400,7 +407,11 @@ func (c *Conn) ExecRollbackTx(tx Tx) (res TxResult, err error) {
 	}
 
 	origSize := db.Img.N()
-	newImg, dirty := db.buildImage(db.Img, tx, ref.ModeRollback)
+	hdrMode := ref.ModeRollback
+	if db.pendingMode != 0 {
+		hdrMode = db.pendingMode
+	}
+	newImg, dirty := db.buildImage(db.Img, tx, hdrMode)
 	res.Pages = len(dirty)
 	noSync := c.Sync == SyncOff
 	nonce := 0x5eed0000 + db.Change
@@ -651,7 +662,7 @@ func (c *Conn) ExecRollbackTx(tx Tx) (res TxResult, err error) {
 	res.Committed = true
 	db.Img = newImg
 	db.Change++
-	db.Mode = ref.ModeRollback
+	db.Mode = hdrMode
 	res.Image = newImg
 	if newImg.N() < origSize {
 		c.op("truncate db %d pages", newImg.N())
